@@ -13,14 +13,24 @@ ASSEMBLY_LAYER = ("moclo.core._assembly", "moclo.core._utils")
 
 
 def layer_functions(p: Program) -> List[FuncInfo]:
+    """The assembly layer: everything defined in moclo.core._assembly, plus the functions of the other core modules it
+    reaches by direct calls (helpers moved to core/_utils.py, context managers, value objects).  Helpers of the same
+    utility module that only the structured classes call (the source annotator, span helpers of target_sequence) are
+    the *accessor* layer and judged there (K7-K10, K12)."""
+    cached = getattr(p, "_layer_functions", None)
+    if cached is not None:
+        return cached
     out = []
-    for mn in ASSEMBLY_LAYER:
-        m = p.modules.get(mn)
-        if m is None:
-            continue
+    m = p.modules.get("moclo.core._assembly")
+    if m is not None:
         out.extend(m.functions.values())
         for ci in m.classes.values():
             out.extend(v for v in ci.attrs.values() if isinstance(v, FuncInfo))
+    for f in list(out):
+        for g in reach(p, f, 6):
+            if g not in out:
+                out.append(g)
+    p._layer_functions = out
     return out
 
 
@@ -35,6 +45,77 @@ def _callees(p: Program, fi: FuncInfo) -> List[FuncInfo]:
                 g = p.resolve_expr(fi.module, n.func)
             if isinstance(g, FuncInfo):
                 out.append(g)
+    return out
+
+
+def _layer_classes(p: Program):
+    out = []
+    for mn in ASSEMBLY_LAYER:
+        m = p.modules.get(mn)
+        if m is not None:
+            out.extend(m.classes.values())
+    return out
+
+
+def reach(p: Program, fi: FuncInfo, depth: int = 4) -> List[FuncInfo]:
+    """fi and what it runs inside the assembly layer: self./cls. calls, calls of module-level names (also through
+    `module.name`), functions handed on as values, and methods of the layer's value objects called on an instance
+    (resolved by method name)"""
+    from .loader import ClassInfo
+
+    cache = p.__dict__.setdefault("_reach_cache", {})
+    key = (id(fi), depth)
+    if key in cache:
+        return cache[key]
+    out, todo = [fi], [(fi, depth)]
+    vclasses = _layer_classes(p)
+    while todo:
+        f, d = todo.pop()
+        if d <= 0:
+            continue
+        nxt = []
+        params = {a.arg for a in f.node.args.posonlyargs + f.node.args.args}
+        for n in ast.walk(f.node):
+            if isinstance(n, ast.Call):
+                fn = n.func
+                if isinstance(fn, ast.Attribute) and isinstance(fn.value, ast.Name) and fn.value.id in ("self", "cls") and f.owner is not None:
+                    _, g = p.class_attr_def(f.owner, fn.attr)
+                    if isinstance(g, FuncInfo):
+                        nxt.append(g)
+                elif isinstance(fn, ast.Attribute) and _is_module_attr(p, f, fn):
+                    try:
+                        g = p.resolve_expr(f.module, fn)
+                    except Exception:
+                        g = None
+                    if isinstance(g, FuncInfo):
+                        nxt.append(g)
+                elif isinstance(fn, ast.Attribute):
+                    for ci in vclasses:
+                        raw = ci.attrs.get(fn.attr)
+                        if isinstance(raw, FuncInfo):
+                            nxt.append(raw)
+            if isinstance(n, ast.Name) and isinstance(n.ctx, ast.Load) and n.id not in params:
+                try:
+                    g = p.resolve_expr(f.module, n)
+                except Exception:
+                    g = None
+                if isinstance(g, FuncInfo):
+                    nxt.append(g)
+                elif isinstance(g, ClassInfo) and g in vclasses:
+                    # instantiating a value object runs its constructor; its other methods are reached when called
+                    init = g.attrs.get("__init__")
+                    if isinstance(init, FuncInfo):
+                        nxt.append(init)
+            if isinstance(n, ast.Attribute) and isinstance(n.ctx, ast.Load) and isinstance(n.value, ast.Name) and n.value.id in ("self", "cls") and f.owner is not None:
+                # self.method handed on as a value
+                _, g = p.class_attr_def(f.owner, n.attr)
+                if isinstance(g, FuncInfo):
+                    nxt.append(g)
+        for g in nxt:
+            if g not in out and g.module.name in ASSEMBLY_LAYER:
+                out.append(g)
+                todo.append((g, d - 1))
+    cache[key] = out
     return out
 
 
@@ -173,7 +254,16 @@ def cutter_check_function(p: Program) -> FuncInfo:
         for f in funcs:
             calls = {n.func.attr for n in ast.walk(f.node) if isinstance(n, ast.Call) and isinstance(n.func, ast.Attribute)}
             ni = any(isinstance(n, ast.Compare) and any(isinstance(c, ast.Name) and c.id == "NotImplemented" for c in n.comparators) for n in ast.walk(f.node))
-            if ni and {"is_blunt", "is_unknown"} <= calls and f not in hits:
+            if not ni:
+                continue
+            # the blunt / unknown tests may sit in a module-level table the function walks
+            for n in ast.walk(f.node):
+                if isinstance(n, ast.Name) and isinstance(n.ctx, ast.Load):
+                    raw = f.module.assigns.get(n.id)
+                    if isinstance(raw, ast.AST):
+                        calls |= {x.attr for x in ast.walk(raw) if isinstance(x, ast.Attribute)} | {
+                            x.value for x in ast.walk(raw) if isinstance(x, ast.Constant) and isinstance(x.value, str)}
+            if {"is_blunt", "is_unknown"} <= calls and f not in hits:
                 hits.append(f)
     if len(hits) != 1:
         raise AnalysisError("anchor vanished: the cutter check (NotImplemented / is_blunt / is_unknown) is not recognised: %s" % [f.qualname for f in hits])
@@ -213,11 +303,32 @@ def citation_functions(p: Program) -> Tuple[FuncInfo, FuncInfo]:
     cached = getattr(p, "_citation_functions", None)
     if cached is not None:
         return cached
-    cands = [f for f in layer_functions(p) if _stores_slots(p, f) and touches_citation(p, f)]
-    ref = [f for f in cands if any(isinstance(n, ast.Call) and isinstance(n.func, ast.Attribute) and n.func.attr == "index" for n in ast.walk(f.node))
-           or any(isinstance(n, ast.Call) and isinstance(n.func, ast.Attribute) and n.func.attr == "setdefault" and n.args
-                  and isinstance(n.args[0], ast.Constant) and n.args[0].value == "references" for n in ast.walk(f.node))]
-    deref = [f for f in cands if f not in ref]
+    # Each of the two is the innermost function that, together with what it runs, (i) stores into a slot, (ii) names the
+    # citation qualifier and (iii) either parses citation text (the dereference: a regex match / int()) or numbers
+    # through the reference list (the re-reference: .index / .append / the list created on demand) -- not both, which is
+    # what the orchestration around them (assemble, a context manager) does.
+    def feats(f):
+        T = reach(p, f)
+        nodes = [n for g in T for n in ast.walk(g.node)]
+        stores = any(_slot_stores(g) for g in T)
+        cites = any(_mentions(g, "citation") for g in T)
+        parses = any(isinstance(n, ast.Call) and ((isinstance(n.func, ast.Attribute) and n.func.attr in ("match", "fullmatch", "search"))
+                                                  or (isinstance(n.func, ast.Name) and n.func.id == "int")) for n in nodes) or any(
+            isinstance(n, ast.Attribute) and n.attr in ("match", "fullmatch") and isinstance(n.ctx, ast.Load) for n in nodes)
+        numbers = any(isinstance(n, ast.Call) and isinstance(n.func, ast.Attribute) and (
+            n.func.attr == "index" or (n.func.attr == "setdefault" and n.args and isinstance(n.args[0], ast.Constant) and n.args[0].value == "references"))
+            for n in nodes)
+        return stores, cites, parses, numbers
+
+    lf = [f for f in layer_functions(p) if not (f.owner is not None and f.owner in _layer_classes(p) and f.owner.name != "AssemblyManager" and f.name != "__call__")]
+    table = {id(f): feats(f) for f in lf}
+    d_entries = [f for f in lf if table[id(f)][0] and table[id(f)][1] and table[id(f)][2] and not table[id(f)][3]]
+    r_entries = [f for f in lf if table[id(f)][0] and table[id(f)][1] and table[id(f)][3] and not table[id(f)][2]]
+
+    def innermost(entries):
+        return [f for f in entries if not any(g is not f and g in reach(p, f) for g in entries)]
+
+    deref, ref = innermost(d_entries), innermost(r_entries)
     if len(ref) != 1 or len(deref) != 1:
         raise AnalysisError("anchor vanished: the citation rewrite pair is not recognised in %s (dereference candidates %s, re-reference candidates %s)"
                             % (", ".join(ASSEMBLY_LAYER), [f.qualname for f in deref], [f.qualname for f in ref]))
@@ -374,7 +485,22 @@ def letter_table(p: Program):
                     isinstance(v, ast.Constant) and isinstance(v.value, str) and v.value.startswith("[") for v in raw.values):
                 hits.append((nm, raw))
     if len(hits) != 1:
-        raise AnalysisError("anchor vanished: DNARegex's letter table (a dict literal of character classes) is not recognised")
+        # a table computed in the class body (comprehension over a tuple of codes, dict(zip(...)), ...): evaluated
+        from .fold import Folder
+
+        folder, hits = Folder(p), []
+        cands = [(nm, raw, True) for nm, raw in ci.attrs.items() if isinstance(raw, ast.AST) and not isinstance(raw, ast.Constant)]
+        cands += [(nm, raw, False) for nm, raw in ci.module.assigns.items() if isinstance(raw, ast.AST) and not isinstance(raw, ast.Constant)]
+        for nm, raw, in_class in cands:
+            try:
+                v = folder.class_const(ci, nm) if in_class else folder._module_expr(ci, raw)
+            except Exception:
+                continue
+            if isinstance(v, dict) and v and all(isinstance(k, str) and isinstance(x, str) and x.startswith("[") for k, x in v.items()):
+                lit = ast.parse(repr(dict(v)), mode="eval").body
+                hits.append((nm, lit))
+    if len(hits) != 1:
+        raise AnalysisError("anchor vanished: DNARegex's letter table (a dict of character classes) is not recognised")
     return hits[0]
 
 
@@ -431,7 +557,34 @@ def match_call_tree(p: Program, ci, root: str = "_match") -> List[FuncInfo]:
                                 if isinstance(c2, ClassInfo) and isinstance(c2.attrs.get(n.attr), FuncInfo):
                                     todo.append(n.attr)
                                     break
+    # module-level helpers of the core package those methods call (a screen moved to core/_utils.py)
+    k = 0
+    while k < len(out):
+        f = out[k]
+        k += 1
+        for n in ast.walk(f.node):
+            if isinstance(n, ast.Call) and isinstance(n.func, (ast.Name, ast.Attribute)):
+                try:
+                    g = p.resolve_expr(f.module, n.func) if (isinstance(n.func, ast.Name) or _is_module_attr(p, f, n.func)) else None
+                except Exception:
+                    g = None
+                if isinstance(g, FuncInfo) and g.owner is None and g.module.name.startswith("moclo.core") and g not in out:
+                    out.append(g)
     return out
+
+
+def _is_module_attr(p: Program, f: FuncInfo, e: ast.Attribute) -> bool:
+    """`mod.func` where `mod` names a module of the repo"""
+    from .loader import ModRef
+
+    if not isinstance(e.value, ast.Name):
+        return False
+    if e.value.id in [a.arg for a in f.node.args.posonlyargs + f.node.args.args]:
+        return False
+    try:
+        return isinstance(p.lookup(f.module.name, e.value.id), ModRef)
+    except Exception:
+        return False
 
 
 def resistance_table(p: Program) -> str:
